@@ -39,7 +39,24 @@ def call_method(V, recv, name, args, kwargs, st, node):
         return dict_method(V, recv, name, args, kwargs, st, node)
     if isinstance(recv, SV) and isinstance(recv.t, SetT):
         raise Unsupported('set method %s' % name)
+    if isinstance(recv, SV) and recv.t == ANY and name in OPAQUE_METHODS:
+        # a method of an opaque value (bytes.decode ...): some value functionally determined by receiver and
+        # arguments; nothing else is known about it.  It may raise.
+        from .values import box_any, MExc
+        zargs = [recv.z] + [box_any(a) for a in args] + [box_any(kwargs[k]) for k in sorted(kwargs)]
+        tag = name + ''.join('|' + k for k in sorted(kwargs))
+        rt = OPAQUE_METHODS[name]
+        from .types import sort_of
+        f = V.uf('any.%s' % tag, [a.sort() for a in zargs], sort_of(rt))
+        for cls in ('UnicodeDecodeError', 'TypeError', 'AttributeError'):
+            bad = st.fork()
+            if V.feasible(bad.pc):
+                V.exc_out.append((bad, MExc(cls, [], origin='.%s()' % name)))
+        return SV(rt, f(*zargs))
     raise Unsupported('method %s on %r' % (name, recv))
+
+
+OPAQUE_METHODS = {'decode': STR}
 
 
 def str_method(V, s, name, args, kwargs, st, node):
